@@ -252,7 +252,7 @@ def _monomial(e):
         elif z3.is_app(x) and x.decl().kind() == z3.Z3_OP_POWER and z3.is_int_value(x.children()[1]):
             for _ in range(x.children()[1].as_long()):
                 stack.append(x.children()[0])
-        elif z3.is_app(x) and x.decl().kind() in (z3.Z3_OP_ITE,):
+        elif z3.is_app(x) and x.decl().kind() in (z3.Z3_OP_ITE, z3.Z3_OP_ADD, z3.Z3_OP_SUB):
             # an opaque positive quantity (e.g. a rank given as a min): treated as one symbol
             nm = 'opq#%d' % x.get_id()
             syms.append(nm)
